@@ -1,7 +1,11 @@
+module List = Stdlib.List
 (* Correspondence driver: reads cases "(case <id> (in ...) (obs ...))", one per line, evaluates the
    extracted Coq model and the executable spec, and prints one verdict line per case. *)
 let evaluators : (string * (Sx.t -> Sx.t -> Sx.t list * bool * bool * string)) list = [
-  "C13", C13.eval;
+  "C13", G_c13.eval;
+  "C03", G_chain.eval_c03;
+  "C14", G_chain.eval_c14;
+  "C15", G_chain.eval_c15;
 ]
 
 let () =
